@@ -372,7 +372,7 @@ import subprocess  # noqa: E402
 import tempfile  # noqa: E402
 
 sys.path.insert(0, os.path.dirname(os.path.dirname(os.path.dirname(os.path.abspath(__file__)))))
-from vf.core import Check, REPO, HarnessError, lean_str  # noqa: E402
+from vf.core import Check, REPO, HarnessError, lean_str, lean_bool  # noqa: E402
 
 MODULES = ["Model.Threads", "Proofs.Threads", "Generated.C19", "Properties.C19"]
 P = "SqlglotModel.Properties.C19."
@@ -398,6 +398,21 @@ THEOREMS = [P + n for n in (
     "source_two_routes_no_deadlock",
     "two_routes_lock_ownership",
     "reentry_two_routes_deadlock",
+    "generated_shape_ok",
+    "full_module_lock_exclusive",
+    "full_load_exactly_once",
+    "full_results_prefix",
+    "full_results_schedule_independent",
+    "full_every_result_sequential",
+    "no_half_configured_class_visible",
+    "lookups_return_finished_classes",
+    "lazy_access_never_partial",
+    "dispatch_never_partial",
+    "register_first_exposes_half_configured_class",
+    "no_wait_exposes_unfinished_module",
+    "fast_path_returns_partial_module",
+    "publish_early_exposes_partial_table",
+    "full_demo_complete",
 )]
 
 PYTHON = sys.executable
@@ -694,6 +709,119 @@ def scan_reentries(chk: Check) -> dict:
     return {"scanned": scanned, "sites": sites, "modules": sorted({idx[m] for m, _, _ in sites})}
 
 
+# ---- orderings the full model depends on (SourceShape) ------------------------------------------------------------
+def _find_class_fn(tree: ast.Module, cls_name: str, fn_name: str):
+    for cls in [n for n in tree.body if isinstance(n, ast.ClassDef) and n.name == cls_name]:
+        for fn in [n for n in cls.body if isinstance(n, ast.FunctionDef) and n.name == fn_name]:
+            return fn
+    return None
+
+
+def _is_classes_store(st: ast.AST) -> bool:
+    if not isinstance(st, ast.Assign) or len(st.targets) != 1:
+        return False
+    tg = st.targets[0]
+    return isinstance(tg, ast.Subscript) and isinstance(tg.value, ast.Attribute) and tg.value.attr == "_classes"
+
+
+def source_shape(chk: Check) -> dict:
+    shape = {"registerLast": False, "lookupsWait": False, "dialectsLockFirst": False, "optimizerLockFirst": False,
+             "buildThenStore": False}
+    notes = {}
+    # (2) _Dialect.__new__ / get / __getitem__
+    dtree = ast.parse(open(os.path.join(REPO, "sqlglot", "dialects", "dialect.py"), encoding="utf-8").read())
+    new = _find_class_fn(dtree, "_Dialect", "__new__")
+    if new is None:
+        chk.broken.append({"kind": "translator", "what": "C19 translator: structure changed: _Dialect.__new__ not found"})
+    else:
+        stores = [n for n in ast.walk(new) if _is_classes_store(n)]
+        other_writes = [n for n in ast.walk(new) if isinstance(n, ast.Call) and isinstance(n.func, ast.Attribute)
+                        and n.func.attr in ("setdefault", "update", "__setitem__") and isinstance(n.func.value, ast.Attribute)
+                        and n.func.value.attr == "_classes"]
+        body = new.body
+        ok = (len(stores) == 1 and not other_writes and len(body) >= 2 and isinstance(body[-1], ast.Return)
+              and isinstance(body[-1].value, ast.Name) and body[-2] is stores[0]
+              and isinstance(stores[0].value, ast.Name) and stores[0].value.id == body[-1].value.id)
+        shape["registerLast"] = bool(ok)
+        notes["classes_stores_in_new"] = len(stores)
+        if stores:
+            notes["store_position"] = f"statement {body.index(stores[0]) + 1 if stores[0] in body else '?'} of {len(body)}"
+    waits = []
+    for fn_name in ("get", "__getitem__"):
+        fn = _find_class_fn(dtree, "_Dialect", fn_name)
+        good = False
+        if fn is not None:
+            for node in ast.walk(fn):
+                if isinstance(node, ast.If) and any(isinstance(c, ast.Call) and isinstance(c.func, ast.Attribute) and c.func.attr == "_try_load"
+                                                    for b in node.body for c in ast.walk(b)):
+                    test = ast.dump(node.test)
+                    if "_classes" in test and ("_is_initializing" in test or "_initializing" in test) and isinstance(node.test, ast.BoolOp) \
+                            and isinstance(node.test.op, ast.Or):
+                        good = True
+        waits.append(good)
+    init_fn = _find_class_fn(dtree, "_Dialect", "_is_initializing")
+    reads_flag = init_fn is not None and "_initializing" in ast.dump(init_fn) and "modules" in ast.dump(init_fn)
+    shape["lookupsWait"] = all(waits) and bool(reads_flag)
+    notes["lookups_wait"] = {"get": waits[0], "__getitem__": waits[1], "_is_initializing_reads_sys_modules_flag": bool(reads_flag)}
+
+    # (3) no sys.modules / globals() read outside `with _import_lock` in the lazy __getattr__s
+    def lock_first(relpath: str):
+        tree = ast.parse(open(os.path.join(REPO, relpath), encoding="utf-8").read())
+        fns = [n for n in tree.body if isinstance(n, ast.FunctionDef) and n.name == "__getattr__"]
+        if len(fns) != 1:
+            return False, ["no single __getattr__"]
+        outside = []
+
+        def visit(node, inside):
+            if isinstance(node, (ast.With, ast.AsyncWith)) and "_import_lock" in _with_locks(node):
+                for it in node.items:
+                    visit(it, inside)
+                for b in node.body:
+                    visit(b, True)
+                return
+            if not inside:
+                if isinstance(node, ast.Attribute) and node.attr == "modules" and isinstance(node.value, ast.Name) and node.value.id == "sys":
+                    outside.append(f"line {node.lineno}: sys.modules")
+                if isinstance(node, ast.Call) and isinstance(node.func, ast.Name) and node.func.id in ("globals", "vars", "locals"):
+                    outside.append(f"line {node.lineno}: {node.func.id}()")
+                if isinstance(node, ast.Attribute) and node.attr == "__dict__":
+                    outside.append(f"line {node.lineno}: __dict__")
+            for ch in ast.iter_child_nodes(node):
+                visit(ch, inside)
+
+        for st in fns[0].body:
+            visit(st, False)
+        has_with = any(isinstance(n, (ast.With, ast.AsyncWith)) and "_import_lock" in _with_locks(n) for n in ast.walk(fns[0]))
+        return has_with and not outside, outside
+
+    shape["dialectsLockFirst"], o1 = lock_first("sqlglot/dialects/__init__.py")
+    shape["optimizerLockFirst"], o2 = lock_first("sqlglot/optimizer/__init__.py")
+    notes["reads_outside_lock"] = {"dialects": o1, "optimizer": o2}
+
+    # (4) Generator.__init__: build the table completely, then store it
+    gtree = ast.parse(open(os.path.join(REPO, "sqlglot", "generator.py"), encoding="utf-8").read())
+    ginit = _find_class_fn(gtree, "Generator", "__init__")
+    ok = False
+    if ginit is not None:
+        def is_cache_store(st):
+            return isinstance(st, ast.Assign) and any(isinstance(tg, ast.Subscript) and isinstance(tg.value, ast.Name)
+                                                      and tg.value.id == "_DISPATCH_CACHE" for tg in st.targets)
+        all_stores = [n for n in ast.walk(ginit) if is_cache_store(n)]
+        for node in ast.walk(ginit):
+            if isinstance(node, ast.If) and any(is_cache_store(b) for b in node.body):
+                body = node.body
+                st = body[-1]
+                if is_cache_store(st) and len(st.targets) == 1 and isinstance(st.value, ast.Name) and len(all_stores) == 1:
+                    var = st.value.id
+                    built = [b for b in body[:-1] if isinstance(b, ast.Assign) and len(b.targets) == 1 and isinstance(b.targets[0], ast.Name)
+                             and b.targets[0].id == var and isinstance(b.value, ast.Call) and isinstance(b.value.func, ast.Name)
+                             and b.value.func.id == "_build_dispatch"]
+                    ok = len(built) == 1 and body.index(built[0]) == len(body) - 2
+    shape["buildThenStore"] = bool(ok)
+    chk.cov["source_shape"] = {**shape, "notes": notes}
+    return shape
+
+
 def translate(chk: Check) -> str:
     import sqlglot.dialects as D
     import sqlglot.optimizer as O
@@ -703,6 +831,7 @@ def translate(chk: Check) -> str:
     tl = try_load_facts()
     chk.cov["lock_facts"] = {"dialects": fd, "optimizer": fo, "try_load": tl}
     re = scan_reentries(chk)
+    shp = source_shape(chk)
     chk.cov["lock_order_scan"] = {"modules_scanned": len(re["scanned"]), "reentry_sites": [f"{m}:{ln}: {w}" for m, ln, w in re["sites"]]}
     chk.cov["_reentry_modules"] = sorted({m for m, _, _ in re["sites"]})
     if len(re["scanned"]) < 60:
@@ -732,6 +861,8 @@ def translate(chk: Check) -> str:
         f"def scannedModules : Nat := {len(re['scanned'])}\n"
         f"def reentryModules : List Nat := [{', '.join(str(i) for i in re['modules'])}]\n"
         "def reentrySites : List String := [" + ", ".join(lean_str(f"{m}:{ln}: {w}") for m, ln, w in re["sites"]) + "]\n"
+        "/-- orderings the full model is instantiated with (ast of dialect.py, the two __init__.py, generator.py) -/\n"
+        "def shape : SourceShape := { " + ", ".join(f"{k} := {lean_bool(v)}" for k, v in shp.items()) + " }\n"
         "end SqlglotModel.Generated.C19\n"
     )
 
@@ -1351,15 +1482,20 @@ def order_dependence(chk: Check, runner: Runner, base: Baseline, specs: list, wo
 
 
 def run(chk: Check) -> None:
-    chk.trusted.append("C19: hand-written interleaving model Model/Threads.lean of the two lazy __getattr__s, the package lock, "
-                       "import_module as test + load + body + registration, and the _DISPATCH_CACHE get/build/store; "
+    chk.trusted.append("C19: hand-written interleaving models in Model/Threads.lean — (A) the package-lock model (lazy __getattr__s, import_module as "
+                       "test + load + body + registration without importlib's lock, _DISPATCH_CACHE get/build/store; the recorded traces are replayed "
+                       "against this one), (B) `Routes` (lock order of package lock vs module locks), (C) `Full` (package lock AND importlib's module "
+                       "locks, attribute + string route, multi-step class configuration, registry order, lock-free fast path, multi-step dispatch fill); "
                        "the harness-side wrappers that record the event trace (lock proxy, __getattr__ / import_module wrappers, import hook)")
     chk.assumptions += [
-        "PARTIAL: CPython's GIL makes each recorded step (dict get/set, list append, lock acquire/release) atomic; the model's steps are those",
-        "PARTIAL: importlib's per-module locks serialise plain imports and _Dialect._try_load (no package lock there); the model does not contain that path, "
-        "it is exercised by the workload runs and judged by the result / exactly-once / no-hang oracles only",
+        "PARTIAL: CPython's GIL makes each recorded step (dict get/set, list append, lock acquire/release) atomic; the models' steps are those",
+        "importlib's per-module lock is modelled (Full/Routes) as a re-entrant mutex held from before the sys.modules test until the module body has finished; "
+        "its dead-lock DETECTION between module locks is not modelled (only 'a thread never blocks on a module lock it holds'), progress is proved for the "
+        "package-lock model and for the two-routes lock-order model, not for Full",
+        "the Full model's safety theorems (load once, sequential results for mixed routes, no half-configured class, no partial module, no partial dispatch table) "
+        "are tied to the source by ast-extracted orderings (Generated.shape, decided) and by the real-code search; recorded traces are replayed against model (A) only",
         "module bodies and thread programs are configuration of the model: for trace validation they are read off the recorded trace, the order of events is what is validated",
-        "a concurrent run explores the schedules the OS produces with switch interval 1e-6 and a start barrier, not all interleavings (that is what the Lean theorems cover, for the model)",
+        "a concurrent run explores the schedules the OS produces with switch interval 1e-6 and a start barrier (plus the forced two-route schedule per module), not all interleavings (that is what the Lean theorems cover, for the models)",
     ]
     chk.write_generated(translate(chk))
     proved = chk.prove(MODULES, "Properties.C19", THEOREMS)
